@@ -4,6 +4,7 @@
 -/
 import Lean.Data.Json
 import Spil.Model.Find
+import Spil.Model.Path
 import Spil.Spec.Sid
 
 open Lean
@@ -139,6 +140,11 @@ def sidFrom (st : State) (j : Json) : P (Except Err Sid) := do
   | none =>
   match fieldOpt j "query" with
   | some q => return st.ctx.sidOfQuery (← str q)
+  | none =>
+  match fieldOpt j "path" with
+  | some p =>
+    let cfgName ← (match fieldOpt j "config" with | some cj => do pure (some (← str cj)) | none => pure none : P (Option Str))
+    return st.ctx.sidOfPath (← str p) cfgName
   | none => throw "sid source expected"
 
 def kwOf (j : Json) : P (List (Str × Option Str)) := listOf (pairOf str optStr) j
@@ -181,6 +187,9 @@ def sidCall (st : State) (j : Json) : P Json := do
   | "get_with_kw" =>
     let kw ← kwOf (← field j "kw")
     return bindE x (fun x => (c.getWithKw x kw).map jsid)
+  | "path" =>
+    let cfgName ← (match fieldOpt j "config" with | some cj => do pure (some (← str cj)) | none => pure none : P (Option Str))
+    return bindE x (fun x => (c.sidPath cfgName x).map (jopt jstr))
   | "match" =>
     let s ← fieldStr j "search"
     return bindE x (fun x => (c.sidMatch x s).map jbool)
@@ -219,6 +228,12 @@ def step (st : State) (j : Json) : P Json := do
     let r ← resolverOf st (← fieldStr j "r")
     return result (jlist (jpair jstr jstr)) (Resolver.formatAll e r (← dict (← field j "data")))
   | "sid" => return result jsid (← sidFrom st j)
+  | "path_to_dict" =>
+    let cfgName ← (match fieldOpt j "config" with | some cj => do pure (some (← str cj)) | none => pure none : P (Option Str))
+    let ty ← (match fieldOpt j "type" with | some tj => do pure (some (← str tj)) | none => pure none : P (Option Str))
+    match c.cfg.pathConf? cfgName with
+    | none => throw "unknown path config"
+    | some pc => return result (jopt (jpair jstr jdict)) (c.pathToDict pc (← fieldStr j "path") ty)
   | "sid_call" => sidCall st j
   | "to_dict" => return result jdict (Query.toDict (← fieldStr j "q"))
   | "to_string" => return result jstr (.ok (Query.toString (← dict (← field j "d"))))
